@@ -422,6 +422,16 @@ def camel(s):
     return "".join(p.capitalize() for p in s.split("_"))
 
 
+def snake(s):
+    """CamelCase -> snake_case such that camel(snake(s)) == s (`UInt` -> `u_int`)."""
+    out = ""
+    for i, ch in enumerate(s):
+        if ch.isupper() and i:
+            out += "_"
+        out += ch.lower()
+    return out
+
+
 class TNode:
     """A type definition of the abstract program."""
     def __init__(self, name, kind, parent, file, inline=False, anon=None):
@@ -452,6 +462,7 @@ class FNode:
         self.ftype, self.abbr, self.array, self.alias = ftype, abbr, array, alias
         self.alias_names = None     # virtual field written as `let v = a.b.c`
         self.type_names = None      # the dotted type name written for the field
+        self.size_names = None      # a dotted name written as the field's size (`[+Foo.AA]`)
         self.line = None
         self.col = None
         self.abbr_col = None
@@ -748,7 +759,7 @@ class Gen:
         for _ in range(n_types):
             nm = self.pick_name(TYPE_POOL + (["UInt"] if self.r.random() < 0.05 else []), used)
             used.add(nm)
-            m.types.append(self.type(nm, m, file, 0))
+            m.types.append(self.type(nm, m, file, 0, kind="external" if self.r.random() < 0.05 else None))
         return m
 
     def type(self, name, parent, file, depth, kind=None, inline=False):
@@ -756,6 +767,9 @@ class Gen:
         kind = kind or r.choice(["struct", "struct", "struct", "bits", "enum"])
         t = TNode(name, kind, parent, file, inline=inline)
         self.scope_types.setdefault(id(t.scope_owner()), set()).add(name)
+        if kind == "external":
+            self.f("external")
+            return t
         if kind == "enum":
             used = set()
             for _ in range(r.randint(1, 3)):
@@ -836,6 +850,128 @@ class Gen:
             return FNode(name, owner, "phys", ftype="ref", abbr=abbr, array=r.random() < 0.15)
         return FNode(name, owner, "phys", ftype=None, abbr=abbr)
 
+    # ---- injected collisions -------------------------------------------------------------
+    def clone_shape(self, src, parent, file, inline=False, kind=None):
+        """A *different* definition with the name and exactly the member names of `src` (a TNode,
+        or ('prelude', name) / an external: no members): same value / field / abbreviation /
+        parameter names, in another order and with other layouts."""
+        r = self.r
+        if isinstance(src, tuple):
+            return TNode(src[1], "external", parent, file)
+        t = TNode(src.name, kind or src.kind, parent, file, inline=inline)
+        if src.kind == "enum":
+            names = [v.name for v in src.values]
+            r.shuffle(names)
+            t.values = [VNode(n, t) for n in names]
+            return t
+        t.params = [FNode(p.name, t, "param") for p in src.params] if not inline else []
+        fs = list(src.fields)
+        r.shuffle(fs)
+        for f in fs:
+            if r.random() < 0.3 and not f.abbr:
+                t.fields.append(FNode(f.name, t, "virt"))
+            else:
+                t.fields.append(FNode(f.name, t, "phys", ftype=None, abbr=f.abbr))
+        return t
+
+    @staticmethod
+    def clonable(src, inline=False):
+        if isinstance(src, tuple):
+            return not inline
+        if src.kind == "external":
+            return not inline
+        if src.anon is not None or src.subtypes or any(f.kind == "anonfield" for f in src.fields):
+            return False
+        if inline and (src.params or (src.kind != "enum" and not src.fields)):
+            return False
+        return True
+
+    def inject_collision(self):
+        """Deliberately makes one type name visible from two scopes and writes a plain reference
+        to it (property statement: "incl. injected collisions").  The second definition is
+        (a) the type of an inline `enum`/`bits`/`struct` field, the plain reference coming before
+        or after that field in the same structure, (b) an explicitly nested type, or (c) a
+        module-level type named like a prelude type; in every variant it has either exactly the
+        member names of the definition it collides with, or different ones.  Returns a tag."""
+        r = self.r
+        orc = Oracle(self.mods, PRELUDE_TYPES)
+        hosts = [t for t in self.all_types() if t.kind in ("struct", "bits") and not t.inline and t.anon is None]
+        if not hosts:
+            return None
+        for _ in range(8):
+            t = r.choice(hosts)
+            own = orc.table(t)
+            outer = []          # (name, definition) offered by the scopes enclosing t
+            for sc in orc.chain(t)[1:]:
+                for n, defs in orc.table(sc).items():
+                    for (k, d) in defs:
+                        if k == "type" and n not in own and not (isinstance(d, TNode) and d.anon is not None):
+                            outer.append((n, d))
+            variant = r.choice(["inline", "inline", "nested", "prelude"])
+            if variant == "prelude":
+                outer = [(n, d) for (n, d) in outer if isinstance(d, tuple)]
+            if not outer:
+                continue
+            same = r.random() < 0.5
+            if same:
+                # prefer a definition whose member names can be repeated in this variant
+                kinds_here = ["enum", "bits"] + (["struct"] if t.kind == "struct" else [])
+                if variant == "inline":
+                    ok = [(n, d) for (n, d) in outer if isinstance(d, TNode) and d.kind in kinds_here
+                          and self.clonable(d, inline=True)]
+                elif variant == "nested":
+                    ok = [(n, d) for (n, d) in outer if isinstance(d, TNode) and d.kind in kinds_here
+                          and self.clonable(d)]
+                else:
+                    ok = outer
+                outer = ok or outer
+            name, src = r.choice(sorted(outer, key=lambda x: (x[0], isinstance(x[1], tuple))))
+            taken = set(own) | set(f.abbr for f in t.fields if f.abbr)
+            ref_name = self.pick_name([n for n in FIELD_POOL if n not in taken] or ["zz"], set())
+            ref = FNode(ref_name, t, "phys", ftype=None)
+            if r.random() < 0.25 and isinstance(src, TNode) and src.kind == "enum" and src.values:
+                ref.size_names = [name, r.choice(src.values).name]       # `[+Name.VALUE]`
+            else:
+                ref.type_names = [name]
+            if variant == "inline":
+                fname = snake(name)
+                if fname in taken or fname == ref_name or camel(fname) != name:
+                    continue
+                kinds = ["enum", "bits"] + (["struct"] if t.kind == "struct" else [])
+                if same and self.clonable(src, inline=True) and src.kind in kinds:
+                    it = self.clone_shape(src, t, t.file, inline=True)
+                else:
+                    same = False
+                    it = self.type(name, t, t.file, self.max_depth, kind=r.choice(kinds), inline=True)
+                t.subtypes.append(it)
+                self.scope_types.setdefault(id(t), set()).add(name)
+                new = FNode(fname, t, "phys", ftype=it)
+                first = r.random() < 0.5            # the plain reference first?
+                pos = r.randint(0, len(t.fields))
+                t.fields[pos:pos] = [ref, new] if first else [new, ref]
+                tag = "inline_%s_%s" % ("ref_first" if first else "ref_after", "same_shape" if same else "other_shape")
+            else:
+                host = t
+                if variant == "prelude":
+                    host = [m for m in self.mods if m.file == t.file][0]
+                    if any(x.name == name for x in host.types):
+                        continue
+                is_ext = isinstance(src, tuple) or src.kind == "external"
+                if same and self.clonable(src) and (is_ext or src.kind != "struct" or t.kind == "struct") \
+                        and (host is not t or not is_ext):       # externals: module level only
+                    nt = self.clone_shape(src, host, t.file)
+                else:
+                    same = False
+                    k = r.choice(["struct", "bits", "enum"]) if (host is not t or t.kind == "struct") else r.choice(["bits", "enum"])
+                    nt = self.type(name, host, t.file, self.max_depth, kind=k)
+                (host.types if host is not t else t.subtypes).append(nt)
+                self.scope_types.setdefault(id(host), set()).add(name)
+                t.fields.insert(r.randint(0, len(t.fields)), ref)
+                tag = "%s_%s" % (variant, "same_shape" if same else "other_shape")
+            self.f("collision_" + tag)
+            return tag
+        return None
+
     # ---- references --------------------------------------------------------------------
     def all_types(self):
         out = []
@@ -855,7 +991,7 @@ class Gen:
         for t in self.all_types():
             for f in t.fields:
                 if f.ftype == "ref":
-                    f.type_names = self.type_ref_string(t, want=("struct", "bits", "enum"))
+                    f.type_names = self.type_ref_string(t, want=("struct", "bits", "enum", "external"))
                     res = orc.resolve_name(t, f.type_names)
                     f.ftype = None
                     if res[0] == "ok":
@@ -979,6 +1115,9 @@ class Gen:
             names.append(r.choice(FIELD_POOL + ["imp"]))
         elif x < 0.15 and ctx_ty.params:
             names.append(r.choice(ctx_ty.params).name)
+            if r.random() < 0.2:
+                self.f("member_of_parameter")
+                names.append(r.choice(FIELD_POOL))
         else:
             f = r.choice(pool)
             names.append(f.abbr if (f.abbr and r.random() < 0.4) else f.name)
@@ -1062,6 +1201,10 @@ class Gen:
 
     def emit_body(self, e, t, ind):
         pad = "  " * ind
+        if t.kind == "external":
+            e.w(pad + "[addressable_unit_size: 8]")
+            e.nl()
+            return
         if t.kind == "enum":
             for i, v in enumerate(t.values):
                 e.w(pad)
@@ -1123,7 +1266,9 @@ class Gen:
                 self.field_attr(e, t, f, ind + 1)
             return
         e.w(pad + "%d [+" % off)
-        if r.random() < 0.3:
+        if f.size_names is not None:
+            self.use_name(e, f.size_names, t)
+        elif r.random() < 0.3:
             self.expr(e, t, earlier)
         else:
             e.w("1")
@@ -1201,6 +1346,8 @@ def gen_case(r, size):
             imports.append((r.choice(["imq", "imq", alias]), imq))
             g.f("import2")
     m = g.module("m.emb", r.randint(1, size), imports=imports)
+    if r.random() < 0.25:
+        g.inject_collision()
     g.assign_field_types()
     files, marks = {}, {}
     for mod in g.mods:
@@ -1321,6 +1468,18 @@ def check_oracle(case, o, chk):
                 out.append((None, "unexpected error from resolve_symbols: %r" % ((kind, name, file, loc),)))
         if not dups and not bad_refs:
             out.append((None, "module rejected (%r) although every name resolves uniquely per the scoping rules" % (o["s1_errors"][:2],)))
+        # the search over the visible scopes runs for every reference, also after the first
+        # error: once the resolution passes are reached (no duplicate definition), every head
+        # name the rules call ambiguous must be reported as such, never silently bound
+        raw = o.get("s1_raw") or o["s1_errors"]
+        if not any(e[0] == "dup" for e in raw):
+            reported = set((e[2], e[3].split("-")[0]) for e in raw if e[0] == "amb")
+            for k, why in bad_refs.items():
+                if why == "ambiguous" and k not in reported:
+                    out.append((None, "module rejected for another reason, but %r at %s:%s is visible from two scopes and "
+                                      "no `Ambiguous name` error was reported for it" % (exp[k][1], k[0], k[1])))
+                elif why == "ambiguous":
+                    st("ambiguity_reported")
         return out
     # accepted by resolve_symbols
     if dups:
@@ -1453,6 +1612,27 @@ CORPUS = [
     ({"m.emb": "enum Foo:\n  AA = 1\n  BB = AA + 1\nstruct Bar:\n  0 [+Foo.BB]  UInt  x\n  1 [+BB]  UInt  y\n"}, "enum values are local to the enum"),
     ({"m.emb": "struct Foo(x: UInt:8):\n  0 [+1]  UInt  x\n"}, "parameter and field of the same name"),
     ({"m.emb": "struct Foo:\n  0 [+1]  UInt  long_name (ln)\nstruct Bar:\n  0 [+Foo.ln]  UInt  y\n"}, "static reference through an abbreviation"),
+    # fixed by 8da3027 (was crash:symbol_resolver.py:_resolve_field_reference:AttributeError)
+    ({"m.emb": "struct Foo(p: UInt:8):\n  0 [+1]  UInt  x\n  1 [+p.x]  UInt  y\n"}, "member of a runtime parameter"),
+    ({"m.emb": "struct Foo(p: UInt:8):\n  0 [+1]  UInt  x\n  let q = p\n  1 [+q.x]  UInt  y\n"}, "member of a parameter through an alias"),
+    ({"m.emb": "struct Bar:\n  0 [+1]  UInt  z\nstruct Foo(p: Bar):\n  0 [+1]  UInt  x\n  let y = p.z + 1\n"}, "member of a structure-typed parameter"),
+    ({"m.emb": "struct Foo(p: UInt:8):\n  0 [+1]  UInt  x\nstruct Bar:\n  0 [+1]  Foo(1)  f\n  let y = f.p.x\n"}, "member of a parameter reached as member"),
+    # one name visible from two scopes, around an inline type / with identical member names;
+    # third element: what the language reference demands of resolve_symbols for this input
+    ({"m.emb": "enum Sel:\n  AA = 0\nstruct Pkt:\n  0 [+1]  enum  sel:\n    BB = 1\n  1 [+1]  Sel  other\n"},
+     "inline type collides with outer type, plain reference after", ("amb", "Sel")),
+    ({"m.emb": "enum Sel:\n  AA = 0\nstruct Pkt:\n  0 [+1]  Sel  other\n  1 [+1]  enum  sel:\n    BB = 1\n"},
+     "inline type collides with outer type, plain reference before", ("amb", "Sel")),
+    ({"m.emb": "struct Pkt:\n  0 [+1]  enum  pkt:\n    BB = 1\n  1 [+1]  Pkt  other\n"},
+     "inline type named like its enclosing structure", ("amb", "Pkt")),
+    ({"m.emb": "struct Pkt:\n  0 [+1]  bits:\n    0 [+4]  enum  u_int:\n      BB = 1\n    4 [+4]  UInt  other\n"},
+     "inline type in anonymous bits named like a prelude type", ("amb", "UInt")),
+    ({"m.emb": "enum Lvl:\n  LO = 0\n  HI = 1\nstruct Outer:\n  enum Lvl:\n    HI = 0\n    LO = 1\n  0 [+1]  Lvl  lvl\n"},
+     "two enums with the same value names", ("amb", "Lvl")),
+    ({"m.emb": "struct Pt:\n  0 [+1]  UInt  xx\n  1 [+1]  UInt  yy\nstruct Outer:\n  struct Pt:\n    0 [+2]  UInt  yy\n    2 [+2]  UInt  xx\n  0 [+4]  Pt  p\n"},
+     "two structures with the same field names", ("amb", "Pt")),
+    ({"m.emb": "external Bcd:\n  [addressable_unit_size: 8]\nstruct Foo:\n  0 [+1]  Bcd  f\n"},
+     "external shadowing a prelude external", ("amb", "Bcd")),
 ]
 
 # narrow predicate: every error resolve_symbols reported has a synthetic location (a name inside
@@ -1461,8 +1641,6 @@ HIDDEN_KEY = "resolver-errors-all-hidden-as-synthetic"
 
 # pinned inputs of known findings: (key, files, stage)
 FINDING_INPUTS = {
-    "crash:symbol_resolver.py:_resolve_field_reference:AttributeError":
-        {"m.emb": "struct Foo(p: UInt:8):\n  0 [+1]  UInt  x\n  1 [+p.x]  UInt  y\n"},
     "crash:dependency_checker.py:strong_connect:KeyError":
         {"m.emb": 'import "imp.emb" as imp\nstruct Foo:\n  0 [+1]  UInt  x\n  1 [+imp]  UInt  y\n',
          "imp.emb": "struct Baz:\n  0 [+1]  UInt  q\n"},
@@ -1515,6 +1693,13 @@ def evaluate(chk, cases, model_ok, label):
                               key=key)
         else:
             exc = first_exception(o)
+            if c.get("expect") is not None and exc is None:
+                got = [(e[0], e[1]) for e in (o.get("s1_errors") or [])]
+                if tuple(c["expect"]) not in got:
+                    chk.violation("input", {"input": c["files"],
+                                            "observed": "resolve_symbols: errors %r, bindings %r" % (got, o.get("s1_refs")),
+                                            "expected": "rejected with %r (language reference: a name visible from "
+                                                        "two scopes is ambiguous)" % (c["expect"],)})
             if exc is not None:
                 chk.violation("input", {"input": c["files"], "observed": "exception %r" % (exc,),
                                         "expected": "IR or located errors"},
@@ -1648,6 +1833,10 @@ def known_findings(chk):
                 chk.report_known(k)
 
 
+def corpus_cases():
+    return [{"files": c[0], "expect": c[2] if len(c) > 2 else None} for c in CORPUS]
+
+
 def generated_cases(r, n, size):
     cases = []
     feats = {}
@@ -1664,7 +1853,7 @@ def search(chk):
     before = len(chk.violations)
     r = common.rng("C12-search")
     cases, _f = generated_cases(r, 400, 4)
-    evaluate(chk, [{"files": f} for (f, _n) in CORPUS] + cases, False, "search")
+    evaluate(chk, corpus_cases() + cases, False, "search")
     return len(chk.violations) - before
 
 
@@ -1678,7 +1867,7 @@ def run(tier):
     model_ok = common.proof_gate(chk, search)
     known_findings(chk)
     observe_testdata(chk, model_ok)
-    evaluate(chk, [{"files": f} for (f, _n) in CORPUS], model_ok, "corpus")
+    evaluate(chk, corpus_cases(), model_ok, "corpus")
     evaluate(chk, [{"files": f} for f in FINDING_INPUTS.values()], model_ok, "finding inputs")
     r = common.rng("C12")
     n = 350 if tier == "quick" else 4000
